@@ -194,7 +194,13 @@ def gen(rng, nboards=None, ntrains=None, small=False, secack=None, allow_hi_bits
         al, ah = dcc()
         t = {"id": nid("train"), "al": al, "ah": ah, "steps": rng.choice([14, 28, 126])}
         if rng.random() < 0.5: t["cal"] = sorted(rng.sample(range(1, 127), 9))
-        bits = rng.sample(list(range(5)) + list(range(8, 32)) + ([5, 6, 7] if allow_hi_bits else []), rng.choice([0, 1, 2, 4]))
+        # function bits cluster in MSG_CS_DRIVE groups; the first and the last bit of a group are the interesting ones
+        groups = [(0, 4), (8, 11), (12, 15), (16, 23), (24, 31)]
+        bits = set()
+        for lo, hi in rng.sample(groups, rng.choice([0, 1, 1, 2, 3])):
+            bits.update(rng.sample([lo, hi, lo, hi] + list(range(lo, hi + 1)), rng.choice([1, 2, 3])))
+        bits = sorted(bits) + ([rng.choice([5, 6, 7])] if allow_hi_bits else [])
+        rng.shuffle(bits)
         t["per"] = [{"id": nid("fn"), "bit": b, "initial": rng.choice([None, 0, 1])} for b in bits]
         trains.append(t)
     return {"boards": boards, "track": track, "trains": trains}
